@@ -187,7 +187,10 @@ def monitor_c03(ctx):
                                                       # the right-hand side / key of an index assignment itself adds to the container; an element extended by the compound form
                                                       ['c["outer"] = __setitem__(c, "inner", 1)', []], ['c["o"] = try_apply(w => __setitem__(c, "i", 1), 0)', []],
                                                       ['c[__setitem__(c, "i", "j")] = 1', []], ['c["o"] += try_apply(w => __setitem__(c, "i", 1), 0)', []],
-                                                      ['c[0] = push(c, 1)', []], ['c["0"] += [3]', ['dict']], ['c[0] += [3]', ['list']], ['c["0"] *= [3]', []]]}],
+                                                      ['c[0] = push(c, 1)', []], ['c["0"] += [3]', ['dict']], ['c[0] += [3]', ['list']], ['c["0"] *= [3]', []],
+                                                      # finding D18: a slice object as the index (obtained by rebinding __getitem__) makes
+                                                      # an index assignment insert several elements after ONE size check
+                                                      ['__getitem__ = (q, k) => k; s = c[0:0]; c[s] = [1, 2, 3]', []]]}],
              'each element-adding operation on lists and dicts of exactly 10000 and 10001 elements: ParserError and container unchanged')
     return _merge('c03', [a, b])
 
